@@ -149,7 +149,7 @@ def run(ck):
     ck.assumptions += ["children are self-consistent (never => false, always => true)", "fewer than 64 filters"]
     ck.rule("C08.R9", "a Vec / Layered tree replaces its computed interest by the per-filter sum only if every part is per-layer-filtered (as C07.R7)", floor=2)
     ck.rule("C08.R10", "FilterFn / DynFilterFn builder steps keep the predicate and the other hint (same-named field carry-over, as C13.R6)", floor=3)
-    ck.rule("C08.R11", "EnvFilter publishes `never` only when it has no span directives, and `always` only for what the static directives (or a stored span matcher) enable", floor=2)
+    ck.rule("C08.R11", "EnvFilter publishes `never` only when it has no span directives, and `always` only for what the static directives (or a stored span matcher) enable", floor=3)
     ck.rule("C08.R12", "Layered decides `the value below me is the Registry` from that value's own type: a layer combined with and_then keeps its hint", floor=1)
     ck.rule("C08.R8", "level hints and thresholds are compared by a correct total order (as C19.R1/R2/R4)", floor=60)
     ck.rule("C08.R1", "And/Or/Not: interest table sound w.r.t. enabled; hint is a sound bound", floor=6)
@@ -434,7 +434,12 @@ def r5(ck, F):
         vals = list(rows.values())
         has_trace = any("TRACE" in v for v in vals)
         has_max = any(v.startswith("max(") or "max(" in v for v in vals)
-        if has_trace and has_max:
+        # polarity: the max over the directive levels is only a bound when no directive filters on field *values*
+        # (those enable spans of any level until the value is recorded): with value filters the hint must be TRACE
+        polarity = all(("TRACE" in v) for k, v in rows.items() if ("has_value_filters", True) in k) and \
+            all(("max(" in v) for k, v in rows.items() if ("has_value_filters", False) in k) and \
+            any(("has_value_filters", True) in k for k in rows)
+        if has_trace and has_max and polarity:
             ck.ok("C08.R5", "EnvFilter::max_level_hint: TRACE with value filters, else max over statics/dynamics", fn=h.path, detail={str(k): v for k, v in rows.items()})
         else:
             ck.bad("C08.R5", "EnvFilter::max_level_hint: TRACE with value filters, else max over statics/dynamics", where(h.raw["sp"]), "rows %s" % rows, fn=h.path)
@@ -708,6 +713,22 @@ def envfilter_interest(ck, F, rid="C08.R11"):
                 always_bad.append(conds[:4])
         elif r != "sometimes()":
             nevers.append("unrecognised result %s" % r[:60])
+    # a span callsite is offered to the span directives (dynamics.matcher) whenever there are any: that lookup is what
+    # stores the per-callsite matcher every later on_new_span / enter / exit of the span depends on
+    from rulekit.query import guards_of
+    mk = [bb for bb, t in rc.calls() if (t["callee"].get("path") or "").endswith("::matcher")]
+    keym = "EnvFilter::register_callsite asks the span directives about every span callsite"
+    if len(mk) == 1:
+        g, _ = guards_of(rc, mk[0])
+        wrong = [(t[:50], v) for t, v in g if (t == "arg1.has_dynamics" or t.startswith("is_span(")) and (v == 0 or v is False)]
+        extra = [(t[:50], v) for t, v in g if not (t == "arg1.has_dynamics" or t.startswith("is_span(") or t in ("0", "1"))]
+        if wrong or extra:
+            ck.bad(rid, keym, where(rc.raw["sp"]), "dynamics.matcher is consulted under %s: span callsites matched by a span directive get no matcher, so the directive never takes effect"
+                   % (wrong + extra), fn=rc.path)
+        else:
+            ck.ok(rid, keym, fn=rc.path)
+    else:
+        ck.bad(rid, keym, where(rc.raw["sp"]), "%d calls of dynamics.matcher (expected 1)" % len(mk), fn=rc.path)
     key = "EnvFilter::register_callsite publishes `never` only when there are no span directives"
     if rows and not nevers:
         ck.ok(rid, key, fn=rc.path, detail=rows)
